@@ -49,7 +49,9 @@ type quota struct {
 	mutex             sync.RWMutex
 	clock             clock.Clock
 	allowedByReqID    map[string]bool
-	extractCountF     ExtractInt64F
+	// verdicts recorded before the latest window restart and not collected yet
+	prevAllowedByReqID map[string]bool
+	extractCountF      ExtractInt64F
 }
 
 func newQuota(
@@ -125,6 +127,9 @@ func (q *quota) Inc(APIStream publicTypes.APIStreamI) incResult {
 	if _, found := q.allowedByReqID[reqID]; found {
 		return alreadyIncreased
 	}
+	if _, found := q.prevAllowedByReqID[reqID]; found {
+		return alreadyIncreased
+	}
 
 	q.allowedByReqID[reqID] = false
 	var err error
@@ -175,6 +180,7 @@ func (q *quota) Dec(APIStream publicTypes.APIStreamI) {
 	defer q.mutex.Unlock()
 	reqID := APIStream.GetID()
 	delete(q.allowedByReqID, reqID)
+	delete(q.prevAllowedByReqID, reqID)
 }
 
 func (q *quota) Allowed(APIStream publicTypes.APIStreamI) bool {
@@ -183,10 +189,14 @@ func (q *quota) Allowed(APIStream publicTypes.APIStreamI) bool {
 	reqID := APIStream.GetID()
 	value, found := q.allowedByReqID[reqID]
 	if !found {
-		return false
+		// counted before the window restarted, verdict asked for afterwards
+		if value, found = q.prevAllowedByReqID[reqID]; !found {
+			return false
+		}
 	}
 
 	delete(q.allowedByReqID, reqID)
+	delete(q.prevAllowedByReqID, reqID)
 	return value
 }
 
@@ -216,7 +226,10 @@ func (q *quota) storeCountIntoContext(count int64, key string) {
 }
 
 func (q *quota) onWindowRestart() {
-	// We don't need to lock here as we are already in a mutex lock
+	// We don't need to lock here as we are already in a mutex lock.
+	// A request counted just before the restart may not have collected its
+	// verdict yet: keep the entries for one more window instead of dropping them.
+	q.prevAllowedByReqID = q.allowedByReqID
 	q.allowedByReqID = make(map[string]bool)
 }
 
